@@ -8,16 +8,16 @@ EXTENDS Naturals, Integers, Sequences, FiniteSets
 
 VARIABLES live,      \* [id -> [page, off, n, cls]]   cls = 0 for parent-served blocks
           moving,    \* [id -> [n, cls, page, off]]   blocks inside a realloc call
+          used,      \* size classes that have served at least one block so far
+          act,       \* running sum of the classes of all blocks in live and moving (kept incrementally: cheap to validate)
           mt
 
-svars == <<live, moving, mt>>
+svars == <<live, moving, used, act, mt>>
 
 Cls(n) == IF n <= 32 THEN 32 ELSE IF n <= 64 THEN 64 ELSE IF n <= 128 THEN 128 ELSE IF n <= 256 THEN 256
           ELSE IF n <= 512 THEN 512 ELSE 0
 
-RECURSIVE SumCls(_, _)
-SumCls(f, S) == IF S = {} THEN 0 ELSE LET x == CHOOSE y \in S : TRUE IN f[x].cls + SumCls(f, S \ {x})
-Active == SumCls(live, DOMAIN live) + SumCls(moving, DOMAIN moving)
+Active == act
 
 Overlaps(a, b) == a.page = b.page /\ a.off < b.off + b.n /\ b.off < a.off + a.n
 Disjoint(blk, f) == \A i \in DOMAIN f : ~Overlaps(blk, f[i])
@@ -25,7 +25,7 @@ Disjoint(blk, f) == \A i \in DOMAIN f : ~Overlaps(blk, f[i])
 Put(f, id, rec) == [i \in DOMAIN f \cup {id} |-> IF i = id THEN rec ELSE f[i]]
 Drop(f, id) == [i \in DOMAIN f \ {id} |-> f[i]]
 
-SInit(m) == live = << >> /\ moving = << >> /\ mt = m
+SInit(m) == live = << >> /\ moving = << >> /\ used = {} /\ act = 0 /\ mt = m
 
 (* acquire / calloc: aligned, inside no other live block, whole size writable (checked by the user's fill under   *)
 (* ASan), calloc memory zeroed, nobody else's contents disturbed (bad = 0), exact accounting when quiescent        *)
@@ -35,17 +35,19 @@ Acq(ev) ==
     /\ LET b == [page |-> ev.page, off |-> ev.off, n |-> ev.n, cls |-> Cls(ev.n)] IN
        /\ Disjoint(b, live)          \* (a block inside another thread's realloc call may already have been given back)
        /\ live' = Put(live, ev.id, b)
+       /\ used' = used \cup ({b.cls} \ {0})
+       /\ act' = act + b.cls
     /\ UNCHANGED <<moving, mt>>
     /\ ev.active >= 0 => ev.active = Active'
 
 RelBegin(id) ==
-    /\ id \in DOMAIN live /\ live' = Drop(live, id) /\ UNCHANGED <<moving, mt>>
+    /\ id \in DOMAIN live /\ live' = Drop(live, id) /\ act' = act - live[id].cls /\ UNCHANGED <<moving, used, mt>>
 RelEnd(ev) ==
     /\ ev.bad = 0 /\ (ev.active >= 0 => ev.active = Active) /\ UNCHANGED svars
 
 ReallocBegin(id, nold, nnew) ==
     /\ id \in DOMAIN live /\ live[id].n = nold
-    /\ moving' = Put(moving, id, live[id]) /\ live' = Drop(live, id) /\ UNCHANGED mt
+    /\ moving' = Put(moving, id, live[id]) /\ live' = Drop(live, id) /\ UNCHANGED <<used, act, mt>>
 
 (* realloc: contents kept up to the smaller size; a block that stays where it is keeps its class (and must fit    *)
 (* it); a block that moves is served according to its new size; size 0 releases                                   *)
@@ -53,13 +55,15 @@ ReallocEnd(ev, nnew) ==
     /\ ev.id \in DOMAIN moving /\ ev.rc = 0 /\ ev.bad = 0
     /\ LET old == moving[ev.id] IN
        IF nnew = 0
-       THEN /\ ev.null = 1 /\ live' = live
+       THEN /\ ev.null = 1 /\ live' = live /\ used' = used /\ act' = act - old.cls
        ELSE /\ ev.null = 0 /\ ev.prefix = 1 /\ ev.al16 = 1
             /\ LET cls == IF ev.moved = 0 THEN old.cls ELSE Cls(nnew)     \* same chunk -> same class; a new block -> class of its size
                    b == [page |-> ev.page, off |-> ev.off, n |-> nnew, cls |-> cls] IN
                /\ ev.moved = 0 => (ev.page = old.page /\ ev.off = old.off /\ (old.cls # 0 => nnew <= old.cls))
                /\ Disjoint(b, live)
                /\ live' = Put(live, ev.id, b)
+               /\ used' = used \cup ({cls} \ {0})
+               /\ act' = act - old.cls + cls
     /\ moving' = Drop(moving, ev.id) /\ UNCHANGED mt
     /\ ev.active >= 0 => ev.active = Active'
 
@@ -67,7 +71,8 @@ ReallocEnd(ev, nnew) ==
 Query(ev) ==
     /\ moving = << >>
     /\ ev.active = Active /\ ev.reserved_rem = 0
-    /\ (\A i \in DOMAIN live : live[i].cls = 0) => ev.reserved_pages <= 5
+    \* nothing small outstanding: at most one (working) page per size class, and only for classes that were ever used
+    /\ (\A i \in DOMAIN live : live[i].cls = 0) => ev.reserved_pages <= Cardinality(used)
     /\ ev.reserved_pages * 4096 >= ev.active
     /\ UNCHANGED svars
 
